@@ -161,6 +161,8 @@ func c09Eval(kind string, raw []byte) (status, stage, class, text string) {
 		result = slip.List(code)
 	case "T":
 		result = c09WorkerStream(scope, raw)
+	case "S":
+		result = slip.String(c09StackProbe(scope, raw))
 	default:
 		fmt.Fprintf(os.Stderr, "C09-worker: unknown request kind %q\n", kind)
 		os.Exit(2)
@@ -170,6 +172,42 @@ func c09Eval(kind string, raw []byte) (status, stage, class, text string) {
 	text = c09Print(result)
 	status = "V"
 	return
+}
+
+// c09StackProbe reads the text and reports what the object stack model predicts: the number of
+// forms, the depth of a PartialPanic, or which of the two stack related parse errors at which column.
+// Everything else (other conditions, Go panics) is passed on to c09Eval.
+func c09StackProbe(scope *slip.Scope, raw []byte) (out string) {
+	defer func() {
+		if r := recover(); r != nil {
+			msg := ""
+			switch tr := r.(type) {
+			case *slip.PartialPanic:
+				out = fmt.Sprintf("partial %d", tr.Depth)
+				return
+			case *slip.Panic:
+				msg = tr.Message
+			case slip.Instance:
+				if mv, has := tr.SlotValue(slip.Symbol("message")); has {
+					msg = c09SafeString(mv)
+				}
+			}
+			col := ""
+			if i := strings.LastIndex(msg, " at 0:"); i >= 0 {
+				col = msg[i+6:]
+			}
+			switch {
+			case strings.HasPrefix(msg, "unmatched close parenthesis") && col != "":
+				out = "raise unmatched " + col
+			case strings.HasPrefix(msg, "comma not inside a backquote") && col != "":
+				out = "raise comma " + col
+			default:
+				panic(r)
+			}
+		}
+	}()
+	code := slip.Read(raw, scope)
+	return fmt.Sprintf("forms %d", len(code))
 }
 
 // c09CutReader delivers data in chunks of the given sizes (short reads), the rest in reads as large
